@@ -13,6 +13,7 @@ pkgdir=$(python3 -c "import json,sys; print(json.load(open('$d/agent_meta.json')
 run=$(python3 -c "import json,sys; print(json.load(open('$d/agent_meta.json')).get('demo_run',''))")
 name=$(echo "$run" | sed -n 's/.*-run \([^ ]*\).*/\1/p' | tr -d "'\"")
 [ -z "$name" ] && name=Test
+race=""; echo "$run" | grep -q -- "-race" && race="-race"
 pkgdir=${pkgdir#./}; [ -z "$pkgdir" ] && pkgdir=.
 cd "$wt"
 applies=false; builds=false; suite=false; demo_fails=false; demo_passes=false
@@ -25,11 +26,11 @@ if $applies; then
   # module root for the demo package
   mod=.; case "$pkgdir" in sqlite*) mod=sqlite;; fsim*) mod=fsim;; esac
   rel=${pkgdir#$mod}; rel=${rel#/}; [ -z "$rel" ] && rel=.
-  (cd $mod && go test -vet=off -count=1 -run "$name" ./$rel >/tmp/confirm_demo.$$ 2>&1) || demo_fails=true
+  (cd $mod && go test $race -vet=off -count=1 -run "$name" ./$rel >/tmp/confirm_demo.$$ 2>&1) || demo_fails=true
   grep -q "no tests to run" /tmp/confirm_demo.$$ && demo_fails=false
   tail -3 /tmp/confirm_demo.$$ | sed 's/^/   with-change: /'
   git apply -R "$d/patch.diff"
-  (cd $mod && go test -vet=off -count=1 -run "$name" ./$rel >/tmp/confirm_demo.$$ 2>&1) && demo_passes=true
+  (cd $mod && go test $race -vet=off -count=1 -run "$name" ./$rel >/tmp/confirm_demo.$$ 2>&1) && demo_passes=true
   grep -q "no tests to run" /tmp/confirm_demo.$$ && demo_passes=false
   tail -2 /tmp/confirm_demo.$$ | sed 's/^/   without-change: /'
 fi
